@@ -174,6 +174,8 @@ pub fn cmd_text(c: &Cmd, file: &str, known: &[u32]) -> Option<String> {
             13 => format!(r#"open {{"files":["{}"],"sort":{},"collect":{}}}"#, file.replace("trace.dlt", "can.asc"), sort, collect),
             14 => format!(r#"open {{"files":["{}","{}"],"sort":{},"collect":{}}}"#, file, file.replace("trace.dlt", "logcat.txt"), sort, collect),
             15 => format!(r#"open {{"files":["{}"],"sort":{},"collect":{}}}"#, file.replace("trace.dlt", "generic.log"), sort, collect),
+            // the trace inside a zip archive: extraction runs in its own thread before parsing starts
+            16 => format!(r#"open {{"files":["{}!/trace.dlt"],"sort":{},"collect":{}}}"#, file.replace("trace.dlt", "trace.zip"), sort, collect),
             _ => format!(r#"open {{"files":["{}"],"plugins":[{{"name":"FileTransfer"}},{{"name":"Rewrite","rewrites":[]}},7]}}"#, file),
         },
         Cmd::Close => "close".to_string(),
@@ -188,7 +190,7 @@ pub fn cmd_text(c: &Cmd, file: &str, known: &[u32]) -> Option<String> {
             None => format!("stream_search {}", sref_text(r, known)),
         },
         Cmd::PluginCmd(b) => format!("plugin_cmd {}", b).trim_end().to_string(),
-        Cmd::Fs(b) => format!("fs {}", b).trim_end().to_string(),
+        Cmd::Fs(b) => format!("fs {}", b.replace("@ROOT@", file.trim_end_matches("/trace.dlt"))).trim_end().to_string(),
         Cmd::Raw(s) => s.clone(),
         Cmd::SearchPaged { r, filters, start_idx, max_results } => format!(r#"stream_search {} {{"filters":{},"start_idx":{},"max_results":{}}}"#, sref_text(r, known), filters, start_idx, max_results),
         Cmd::Wait(_) | Cmd::WaitParsed => return None,
@@ -202,6 +204,18 @@ pub fn run_session(s: &Session, ctx: &mut Ctx) -> Result<Transcript, Violation> 
     std::fs::create_dir_all(&root).unwrap();
     let file = root.join("trace.dlt");
     std::fs::write(&file, to_bytes(&s.trace)).unwrap();
+    if s.cmds.iter().any(|c| matches!(c, Cmd::Fs(b) if b.contains("corrupt.zip"))) {
+        std::fs::write(root.join("corrupt.zip"), b"PK\x03\x04 this is not a zip archive PK\x05\x06 at all").unwrap();
+    }
+    if s.cmds.iter().any(|c| matches!(c, Cmd::Open { variant, .. } if *variant == 16)) {
+        use std::io::Write;
+        let mut zw = zip::ZipWriter::new(std::fs::File::create(root.join("trace.zip")).unwrap());
+        zw.start_file("trace.dlt", zip::write::SimpleFileOptions::default().compression_method(zip::CompressionMethod::Stored)).unwrap();
+        zw.write_all(&to_bytes(&s.trace)).unwrap();
+        zw.finish().unwrap();
+        std::fs::create_dir_all(root.join("tmp")).unwrap();
+        std::env::set_var("TMPDIR", root.join("tmp"));
+    }
     if s.cmds.iter().any(|c| matches!(c, Cmd::Open { variant, .. } if *variant >= 10)) {
         // a second recording (the last third of the trace, recorded in parallel) and small text inputs
         let t2: Vec<TMsg> = s.trace[s.trace.len() - s.trace.len() / 3..].to_vec();
